@@ -96,7 +96,11 @@ class _RequestWithHeader:
     """a request built from an explicit header copies its identifiers and neither consumes nor alters
     the registries"""
     args = {"self": _request_self(), "version": T.Const(b"\x01"), "command_code": T.Const(0),
-            "application_id": T.Int(lo=0, hi=4294967295), "header": header_shape(_flags=T.Const(b"\x00"))}
+            "application_id": T.Int(lo=0, hi=4294967295),
+            # DiameterHeader accepts None for either identifier (it then serialises without that field): such a
+            # header is still "an explicit header" -- nothing may be drawn for it
+            "header": header_shape(_flags=T.Const(b"\x00"), _hop_by_hop=T.OneOf(T.Bytes(4), T.NoneS),
+                                   _end_to_end=T.OneOf(T.Bytes(4), T.NoneS))}
     state = {HBH: T.BytesList(), E2E: T.BytesList()}
     setup_spec = snap_regs
 
@@ -130,3 +134,42 @@ def _answer_contract(with_header):
 
 _answer_contract(True)
 _answer_contract(False)
+
+
+# ------------------------------------------------------------------ other threads creating requests meanwhile
+#  The statement's concurrent clause ("requests created concurrently from several threads are pairwise distinct")
+#  is NOT decided in general: membership test and append are two steps with no lock.  What IS decided here is the
+#  coarser interleaving in which other threads complete any number of request creations while this thread is
+#  inside os.urandom (the only call in the loop that leaves the interpreter's critical path): the identifier
+#  finally issued must be absent from the registry AS IT IS THEN, i.e. the code must test against the live
+#  registry, not against something it read before drawing.
+from pyvc.spec import any_values                                      # noqa: E402
+
+
+def others_register_identifiers():
+    grown = B.DiameterRequest.hop_by_hop_identifiers + any_values("hbh-by-other-threads")
+    B.DiameterRequest.hop_by_hop_identifiers = grown
+    return ghost_set("hbh_live", grown.copy())
+
+
+def live_inv():
+    return True
+
+
+@contract("bromelia.base.DiameterRequest._DiameterRequest__set_hop_by_hop_identifier", prop="C15",
+          name="others-draw-meanwhile")
+class _SetHbhConcurrent:
+    """with other threads registering arbitrary identifiers during every os.urandom call: the identifier issued is
+    not among those registered up to the moment it is appended, and it is appended right behind them"""
+    args = {"self": _request_self()}
+    state = {HBH: T.BytesList(), E2E: T.BytesList()}
+    setup_spec = snap_regs
+    # the registry is arbitrary at the head of every iteration (earlier iterations let other threads add to it)
+    loops = {0: Loop(vars={"random_identifier": T.Bytes(4)}, inv=live_inv, state={HBH: T.BytesList()})}
+    samples = 0          # the interference is not re-enacted natively
+    externals_interference = {"os.urandom": others_register_identifiers}
+
+    def ensures_fresh_against_the_live_registry(result):
+        live = ghost_get("hbh_live")
+        return len(result) == 4 and result not in live and \
+            B.DiameterRequest.hop_by_hop_identifiers == live + [result]
